@@ -416,7 +416,7 @@ struct Mixed {
             ctx.st.checks++;
             return true;
         }
-        if (k == "sdnew" || k == "sdwrite" || k == "sdread" || k == "sdattr") {
+        if (k == "sdnew" || k == "sdnew2" || k == "sdwrite" || k == "sdread" || k == "sdattr") {
             if (skip_sd)
                 return false;
             if (!need_sd())
@@ -425,7 +425,7 @@ struct Mixed {
             std::string nm  = strf("sd%d", idx);
             int32       ix  = SDnametoindex(sdid, nm.c_str());
             static const int32 types[] = {DFNT_INT32, DFNT_FLOAT32, DFNT_INT16, DFNT_UINT8, DFNT_FLOAT64};
-            if (k == "sdnew") {
+            if (k == "sdnew" || k == "sdnew2") {
                 if (ix >= 0)
                     return false;
                 int   rank    = 1 + modn(o.arg(1), 3);
@@ -448,6 +448,29 @@ struct Mixed {
                     memset(&ci, 0, sizeof ci);
                     ci.deflate.level = 6;
                     MX("SDsetcompress", SDsetcompress(sds, COMP_CODE_DEFLATE, &ci) == FAIL);
+                }
+                if (k == "sdnew2" && o.arg(6) != 1) {
+                    // further layouts: 0 chunked+deflate, 1 RLE, 2 skipping Huffman, 3 n-bit (integer types), 4 external file
+                    int           lay = modn(o.arg(7), 5);
+                    HDF_CHUNK_DEF cd;
+                    comp_info     ci;
+                    memset(&cd, 0, sizeof cd);
+                    memset(&ci, 0, sizeof ci);
+                    if (lay == 0) {
+                        for (int j = 0; j < rank; j++)
+                            cd.comp.chunk_lengths[j] = j == 0 ? 2 : dims[j];
+                        cd.comp.comp_type           = COMP_CODE_DEFLATE;
+                        cd.comp.cinfo.deflate.level = 3;
+                        MX("SDsetchunk", SDsetchunk(sds, cd, HDF_CHUNK | HDF_COMP) == FAIL);
+                    }
+                    else if (lay == 1 || lay == 2) {
+                        ci.skphuff.skp_size = DFKNTsize(nt);
+                        MX("SDsetcompress", SDsetcompress(sds, lay == 1 ? COMP_CODE_RLE : COMP_CODE_SKPHUFF, &ci) == FAIL);
+                    }
+                    else if (lay == 3 && (nt == DFNT_INT32 || nt == DFNT_INT16 || nt == DFNT_UINT8))
+                        MX("SDsetnbitdataset", SDsetnbitdataset(sds, DFKNTsize(nt) * 8 - 1, DFKNTsize(nt) * 8, 0, 0) == FAIL);
+                    else if (lay == 4)
+                        MX("SDsetexternalfile", SDsetexternalfile(sds, "/sim/mixed_sdext.dat", idx * 4000) == FAIL);
                 }
                 if (call_failed && no_reopen_after_failure) {
                     // C16: the layout call reported a failure: the program only releases what it holds
@@ -556,13 +579,13 @@ struct Mixed {
             ctx.st.checks++;
             return true;
         }
-        if (k == "grnew" || k == "grread") {
+        if (k == "grnew" || k == "grnew2" || k == "grread") {
             if (!need_gr())
                 return true;
             int         idx = modn(o.arg(0), 4);
             std::string nm  = strf("gr%d", idx);
             int32       ix  = GRnametoindex(grid, nm.c_str());
-            if (k == "grnew") {
+            if (k == "grnew" || k == "grnew2") {
                 if (ix >= 0)
                     return false;
                 int32 dims[2] = {(int32)(1 + modn(o.arg(1), 7)), (int32)(1 + modn(o.arg(2), 6))};
@@ -570,6 +593,45 @@ struct Mixed {
                 int32 ri      = GRcreate(grid, nm.c_str(), nc, DFNT_UINT8, MFGR_INTERLACE_PIXEL, dims);
                 if (MX("GRcreate", ri == FAIL))
                     return true;
+                if (k == "grnew2") {
+                    // layout: 1 chunked, 2 RLE, 3 deflate, 4 skipping Huffman, 5 chunked+deflate; an attribute; a palette
+                    int           lay = modn(o.arg(5), 6);
+                    HDF_CHUNK_DEF cd;
+                    comp_info     ci;
+                    memset(&cd, 0, sizeof cd);
+                    memset(&ci, 0, sizeof ci);
+                    if (lay == 1) {
+                        cd.chunk_lengths[0] = 1 + dims[0] / 2;
+                        cd.chunk_lengths[1] = 1 + dims[1] / 2;
+                        MX("GRsetchunk", GRsetchunk(ri, cd, HDF_CHUNK) == FAIL);
+                    }
+                    else if (lay == 5) {
+                        cd.comp.chunk_lengths[0]    = 1 + dims[0] / 2;
+                        cd.comp.chunk_lengths[1]    = 1 + dims[1] / 2;
+                        cd.comp.comp_type           = COMP_CODE_DEFLATE;
+                        cd.comp.cinfo.deflate.level = 5;
+                        MX("GRsetchunk", GRsetchunk(ri, cd, HDF_CHUNK | HDF_COMP) == FAIL);
+                    }
+                    else if (lay >= 2) {
+                        ci.deflate.level    = 4;
+                        ci.skphuff.skp_size = lay == 4 ? 1 : ci.skphuff.skp_size;
+                        MX("GRsetcompress", GRsetcompress(ri, lay == 2 ? COMP_CODE_RLE : lay == 3 ? COMP_CODE_DEFLATE : COMP_CODE_SKPHUFF, &ci) == FAIL);
+                    }
+                    if (call_failed && no_reopen_after_failure) {
+                        MX("GRendaccess", GRendaccess(ri) == FAIL);
+                        return true;
+                    }
+                    if (o.arg(6) & 1) {
+                        int16 av[3] = {(int16)o.arg(4), 7, -3};
+                        MX("GRsetattr", GRsetattr(ri, "ratt", DFNT_INT16, 3, av) == FAIL);
+                    }
+                    if (o.arg(6) & 2) {
+                        std::vector<uint8_t> pal = data_block((uint64_t)o.arg(4) + 5, 768);
+                        int32                lut = GRgetlutid(ri, 0);
+                        if (!MX("GRgetlutid", lut == FAIL))
+                            MX("GRwritelut", GRwritelut(lut, 3, DFNT_UINT8, MFGR_INTERLACE_PIXEL, 256, pal.data()) == FAIL);
+                    }
+                }
                 int32                start[2] = {0, 0};
                 std::vector<uint8_t> d = data_block((uint64_t)o.arg(4), (size_t)(dims[0] * dims[1] * nc));
                 MX("GRwriteimage", GRwriteimage(ri, start, NULL, dims, d.data()) == FAIL);
@@ -597,6 +659,24 @@ struct Mixed {
                 MX("GRreadimage", r == FAIL);
                 if (r != FAIL)
                     ctx.trb(buf.data(), (size_t)(dims[0] * dims[1] * nc * DFKNTsize(nt)));
+                ctx.tr((uint64_t)na);
+                for (int32 a = 0; a < na && a < 4; a++) {
+                    char  an[256] = "";
+                    int32 at = 0, ac = 0;
+                    if (GRattrinfo(ri, a, an, &at, &ac) != FAIL && ac >= 0 && ac < 4096) {
+                        ctx.trb(an, strlen(an));
+                        std::vector<uint8_t> ab((size_t)ac * (size_t)DFKNTsize(at) + 8);
+                        if (GRgetattr(ri, a, ab.data()) != FAIL)
+                            ctx.trb(ab.data(), (size_t)ac * (size_t)DFKNTsize(at));
+                    }
+                }
+                int32 lut = GRgetlutid(ri, 0), lnc = 0, lnt = 0, lil = 0, lne = 0;
+                if (lut != FAIL && GRgetlutinfo(lut, &lnc, &lnt, &lil, &lne) != FAIL && lne > 0 && lne <= 256 && lnc > 0 && lnc <= 4) {
+                    std::vector<uint8_t> pal((size_t)lne * (size_t)lnc * 8 + 8);
+                    ctx.tr((uint64_t)lne);
+                    if (GRreadlut(lut, pal.data()) != FAIL)
+                        ctx.trb(pal.data(), (size_t)lne * (size_t)lnc * (size_t)DFKNTsize(lnt));
+                }
             }
             MX("GRendaccess", GRendaccess(ri) == FAIL);
             ctx.st.checks++;
@@ -684,6 +764,8 @@ struct MixedGen {
             }
             case 2: { // SD
                 int k = fresh ? 0 : (int)r.below(3);
+                if (k == 0 && r.chance(0.4))
+                    return mkop(0, "sdnew2", {(int64_t)r.below(5), (int64_t)r.below(3), (int64_t)r.below(6), (int64_t)r.below(5), (int64_t)r.below(5), ds, 0, (int64_t)r.below(5)});
                 if (k == 0)
                     return mkop(0, "sdnew", {(int64_t)r.below(5), (int64_t)r.below(3), (int64_t)r.below(6), (int64_t)r.below(5), (int64_t)r.below(5), ds, (int64_t)r.below(4)});
                 if (k == 1)
@@ -691,6 +773,8 @@ struct MixedGen {
                 return mkop(0, "sdattr", {(int64_t)r.below(5), (int64_t)r.below(1000), (int64_t)r.below(1000), (int64_t)r.below(3)});
             }
             case 3:
+                if (r.chance(0.5))
+                    return mkop(0, "grnew2", {(int64_t)r.below(4), (int64_t)r.below(7), (int64_t)r.below(6), (int64_t)r.below(3), ds, (int64_t)r.below(6), (int64_t)r.below(4)});
                 return mkop(0, "grnew", {(int64_t)r.below(4), (int64_t)r.below(7), (int64_t)r.below(6), (int64_t)r.below(3), ds});
             default:
                 return mkop(0, "annew", {(int64_t)r.below(4), (int64_t)r.below(100000), (int64_t)r.below(3), (int64_t)r.below(8)});
